@@ -32,7 +32,7 @@ META = {
     "design_ref": "DESIGN.md §3 C08",
     "engines": ["refmodel", "storage_exec", "histgen", "backends"],
 }
-REQUIRED = ("steps", "cache_reads_compared", "out_of_order_finishes", "finished_templates_by_cached_client", "late_joiner_reads", "histories_multi_study", "thread_schedules_b_inside_window")
+REQUIRED = ("steps", "cache_reads_compared", "out_of_order_finishes", "finished_templates_by_cached_client", "late_joiner_reads", "histories_multi_study", "thread_schedules_b_inside_window", "many_unfinished_scenarios_slow_path_taken")
 SHARDS = {"quick": 10, "thorough": 15}
 WATCHDOG_S = {"quick": 900, "thorough": 5 * 3600}
 KINDS = ["cached_sqlite", "cached_sqlite", "grpc:sqlite", "grpc:cached_sqlite", "grpc:inmemory", "grpc:journal_file", "cached_sqlite", "grpc:sqlite",
@@ -354,6 +354,57 @@ def cache_schedules(ctx: Ctx, s, kind: str, a_kind: str) -> None:
     finally:
         store.close()
 
+def many_unfinished_scenario(ctx: Ctx, rng) -> None:
+    """The cached client tracks more unfinished trials below its watermark than the database accepts bind variables in one
+    statement (SQLite's limit is lowered to 510 on the cached client's connections; 520 queued trials): the incremental fetch
+    falls back to its slow path, which must still deliver every state change."""
+    import sqlite3
+
+    import sqlalchemy
+    from optuna.study import StudyDirection
+    from optuna.trial import TrialState as S, create_trial
+
+    if not hasattr(sqlite3.Connection, "setlimit"):
+        ctx.count("many_unfinished_scenario_skipped_no_setlimit")
+        return
+    store = backends.Store("cached_sqlite")
+    try:
+        c, raw = store.client(), store.raw_reader()
+        eng = c._backend.engine
+        errors = []
+        sqlalchemy.event.listen(eng, "connect", lambda dbapi_conn, rec: dbapi_conn.setlimit(sqlite3.SQLITE_LIMIT_VARIABLE_NUMBER, 510))
+        sqlalchemy.event.listen(eng, "handle_error", lambda ctx_: errors.append(str(ctx_.original_exception)[:60]))
+        eng.dispose()
+        sid = c.create_new_study([StudyDirection.MINIMIZE], "many-unfinished")
+        tids = [raw.create_new_trial(sid, create_trial(state=S.WAITING, system_attrs={"fixed_params": {"x": 0.5}})) for _ in range(520)]
+        c.get_all_trials(sid, deepcopy=False)
+        raw.create_new_trial(sid, create_trial(state=S.COMPLETE, value=1.0))
+        c.get_all_trials(sid, deepcopy=False)                 # watermark above all queued trials
+        picks = rng.sample(tids, 3)
+        for t in picks:
+            raw.set_trial_state_values(t, S.RUNNING)
+        raw.set_trial_state_values(picks[0], S.COMPLETE, [2.0])
+        raw.set_trial_state_values(picks[1], S.FAIL)
+        want = _views(raw, sid)
+        case = {"mode": "more_unfinished_ids_than_bind_variables", "backend": "cached_sqlite", "seed": ctx.seed}
+        facts = {"backend_family": "sqlite", "via_grpc": False, "mode": "more_unfinished_ids_than_bind_variables", "foreign_delete_then_sqlite_id_reuse": False}
+        ctx.case(case, True)
+        for rnd in range(2):
+            got = _views(c, sid)
+            ctx.count("cache_reads_compared", 4)
+            bad = [k for k in want if want[k] != got[k]]
+            if bad:
+                k = bad[0]
+                diff = [(a[1], a[2], b[2]) for a, b in zip(want[k], got[k]) if a != b][:4] if len(want[k]) == len(got[k]) else f"{len(got[k])} vs {len(want[k])} trials"
+                ctx.violation({**facts, "kind": "cache_differs_from_backend", "stale_after_quiescence": True},
+                              f"read #{rnd + 1} get_all_trials(states={k}) through the caching client differs from the backend: (number, backend, cache) {diff}", case)
+                break
+        ctx.count("many_unfinished_scenarios")
+        if errors:
+            ctx.count("many_unfinished_scenarios_slow_path_taken")
+    finally:
+        store.close()
+
 
 def run(ctx: Ctx) -> None:
     ctx.rule = ("seeded sequential interleavings of (client, call) steps over 2-4 clients on one database; one case = one history; "
@@ -376,6 +427,8 @@ def run(ctx: Ctx) -> None:
                 cache_schedules(ctx, s, k, a)
         finally:
             s.close()
+    if ctx.shard[0] == 0 or ctx.shard[1] == 1:
+        many_unfinished_scenario(ctx, ctx.rng("many-unfinished"))
     for h in range(n):
         run_history(ctx, ctx.rng("hist", ctx.shard[0], h), kind, h)
         if ctx.out_of_time():
@@ -384,7 +437,10 @@ def run(ctx: Ctx) -> None:
 
 def replay(ctx: Ctx, w: dict) -> None:
     c = w["case"]
-    if c.get("mode") == "single_preemption":
+    if c.get("mode") == "more_unfinished_ids_than_bind_variables":
+        many_unfinished_scenario(ctx, ctx.rng("many-unfinished"))
+        return
+    if c.get("mode") in ("single_preemption", "two_preemptions"):
         from vf import sched
         import optuna.storages._cached_storage as m_cached
         import optuna.storages._grpc.client as m_grpc
